@@ -35,7 +35,7 @@ func runC08(c *Ctx, r *Rec) {
 	rankD := findDispatcher(c, cr, true)
 	cmpD := findDispatcher(c, cr, false)
 	if rankD == nil || cmpD == nil {
-		r.undecided("bind", "agent."+cr.n.Obj().Name(), "", "cannot bind the dispatchers")
+		r.skip("bind", "agent."+cr.n.Obj().Name(), "", "cannot bind the dispatchers")
 		return
 	}
 	// ---- D1
@@ -61,20 +61,31 @@ func runC08(c *Ctx, r *Rec) {
 		}
 	}
 	if leaf == nil {
-		r.undecided("D1-sibling-agreement", "agent."+cr.n.Obj().Name()+"/compare-leaf", c.pos(cmpD.Pos()), "cannot bind the intrinsic compare leaf")
+		r.skip("D1-sibling-agreement", "agent."+cr.n.Obj().Name()+"/compare-leaf", c.pos(cmpD.Pos()), "cannot bind the intrinsic compare leaf")
 	} else {
 		params := paramObjs(info, leaf)
 		mir := newMirror(info, leaf, params[0], params[1])
-		okEq := false
-		if len(leaf.Body.List) == 1 {
-			if rs, ok := leaf.Body.List[0].(*ast.ReturnStmt); ok && len(rs.Results) == 1 {
-				if be, ok := ast.Unparen(rs.Results[0]).(*ast.BinaryExpr); ok && be.Op == token.EQL && mir.mirrorEq(be.X, be.Y) && mir.side(be.X) >= 0 && mir.side(be.X) != mir.side(be.Y) {
-					okEq = true
-				}
+		// every return of the leaf is `extract(first) == extract(second)` (locals are followed)
+		okEq, other := 0, ""
+		inspectNoLit(leaf.Body, func(x ast.Node) bool {
+			rs, ok := x.(*ast.ReturnStmt)
+			if !ok || len(rs.Results) != 1 {
+				return true
 			}
+			res := resolveInit(info, leaf, rs.Results[0])
+			if be, ok := res.(*ast.BinaryExpr); ok && be.Op == token.EQL && mir.mirrorEq(be.X, be.Y) && mir.side(be.X) >= 0 && mir.side(be.X) != mir.side(be.Y) {
+				okEq++
+			} else if be, ok := res.(*ast.BinaryExpr); ok && (be.Op == token.EQL || be.Op == token.NEQ) {
+				other = "the intrinsic compare leaf returns " + exprStr(res) + ", not `extract(first) == extract(second)` with the same extraction on both operands"
+			} else {
+				other = "skip: the intrinsic compare leaf returns " + exprStr(res) + ", a form the rule does not interpret"
+			}
+			return true
+		})
+		if other == "" && okEq == 0 {
+			other = "skip: no return found in the compare leaf"
 		}
-		r.check(okEq, "D1-sibling-agreement", c.fdName(leaf), c.pos(leaf.Pos()), "the compare leaf is Go's == on the same extraction of both operands (true exactly on the = cell on which every rank leaf returns Equal, see C07 D1)",
-			"the intrinsic compare leaf is not `extract(first) == extract(second)`")
+		r.verdict("D1-sibling-agreement", c.fdName(leaf), c.pos(leaf.Pos()), "the compare leaf is Go's == on the same extraction of both operands (true exactly on the = cell on which every rank leaf returns Equal, see C07 D1)", other)
 	}
 	checkIntrinsicArms(c, r, cr, rankD, "D1-intrinsic-arms")
 	// unordered cell: compare says false (==), the rank leaf must then not say Equal
@@ -204,7 +215,11 @@ func runC08(c *Ctx, r *Rec) {
 				bv = append(bv, "the loop returns although all parts seen so far are equal")
 			}
 		}
-		r.check(len(bv) == 0 && len(envB.problems) == 0, "D2-element-verdict", construct, c.pos(fd.Pos()), "an unequal part returns false, equal parts continue", strings.Join(dedup(append(bv, envB.problems...)), " | "))
+		if len(bv) == 0 && len(envB.problems) > 0 {
+			r.skip("D2-element-verdict", construct, c.pos(fd.Pos()), strings.Join(dedup(envB.problems), " | "))
+		} else {
+			r.check(len(bv) == 0, "D2-element-verdict", construct, c.pos(fd.Pos()), "an unequal part returns false, equal parts continue", strings.Join(dedup(bv), " | "))
+		}
 		// size test before the loop (only for functions that measure sizes with Len)
 		var lenCalls []ast.Node
 		ast.Inspect(fd.Body, func(x ast.Node) bool {
@@ -254,8 +269,16 @@ func runC08(c *Ctx, r *Rec) {
 			r.check(bad == "", "D2-size-before-content", construct, c.pos(fd.Pos()), "sizes compared (mismatch -> false) before the loop over the first operand's elements", bad)
 		}
 	}
-	r.floor("D2-mirror-operands", 3)
-	r.floor("D2-size-before-content", 2)
+	r.floor("D2-mirror-operands", 1)
+	// the rank side answers Equal only for operands of the same size (CompareValues says false otherwise)
+	tmp := newRec(r.Property)
+	checkRankComposites(c, tmp, cr)
+	for _, o := range tmp.Obls {
+		if o.Rule == "D7-pairwise-bounds" || (o.Rule == "D7-lexicographic" && strings.HasSuffix(o.Construct, "/after")) {
+			o.Rule = "D1-rank-equal-same-size"
+			r.Obls = append(r.Obls, o)
+		}
+	}
 
 	// ---- D3 guarded recursion
 	checkGuardedRecursion(c, r, info, cr.n, cr.ms, cr.depthF, cr.maxF, "D3-guarded-recursion")
@@ -346,11 +369,69 @@ func checkGuardedRecursion(c *Ctx, r *Rec, info *types.Info, n *types.Named, ms 
 	}
 	var edges []edge
 	names := sortedKeys(ms)
+	// limitIf: an if statement that compares the depth counter with the maximum and panics
+	limitIf := func(x ast.Node) ast.Node {
+		is, ok := x.(*ast.IfStmt)
+		if !ok {
+			return nil
+		}
+		mentionsD, mentionsM := false, false
+		ast.Inspect(is.Cond, func(y ast.Node) bool {
+			if se, ok := y.(*ast.SelectorExpr); ok {
+				if f := selectorField(info, se); f == depthF {
+					mentionsD = true
+				} else if f == maxF {
+					mentionsM = true
+				}
+			}
+			return true
+		})
+		panics := false
+		for _, st := range is.Body.List {
+			if es, ok := st.(*ast.ExprStmt); ok {
+				if call, ok := es.X.(*ast.CallExpr); ok && noReturnCall(info, call) {
+					panics = true
+				}
+			}
+		}
+		if mentionsD && mentionsM && panics {
+			return is.Cond
+		}
+		return nil
+	}
+	// limit helpers: methods whose body starts with such a check (v.checkDepth())
+	limitHelper := map[string]bool{}
+	for _, name := range names {
+		if fd := ms[name]; len(fd.Body.List) >= 1 && limitIf(fd.Body.List[0]) != nil {
+			calls := false
+			ast.Inspect(fd.Body, func(x ast.Node) bool {
+				if call, ok := x.(*ast.CallExpr); ok {
+					if cf := calleeOf(info, call); cf != nil && recvNamed(cf) != nil && recvNamed(cf).Origin() == n.Origin() {
+						calls = true
+					}
+				}
+				return true
+			})
+			if !calls && len(fd.Body.List) == 1 {
+				limitHelper[name] = true
+			}
+		}
+	}
 	for _, name := range names {
 		fd := ms[name]
 		params := paramObjs(info, fd)
 		// does the function check depth against the maximum with a panic?
 		var maxCheck ast.Node
+		ast.Inspect(fd.Body, func(x ast.Node) bool {
+			if es, ok := x.(*ast.ExprStmt); ok {
+				if call, ok := es.X.(*ast.CallExpr); ok {
+					if cf := calleeOf(info, call); cf != nil && recvNamed(cf) != nil && recvNamed(cf).Origin() == n.Origin() && limitHelper[cf.Name()] {
+						maxCheck = call
+					}
+				}
+			}
+			return true
+		})
 		ast.Inspect(fd.Body, func(x ast.Node) bool {
 			is, ok := x.(*ast.IfStmt)
 			if !ok {
@@ -528,9 +609,88 @@ func checkGuardedRecursion(c *Ctx, r *Rec, info *types.Info, n *types.Named, ms 
 			}
 		}
 		sort.Strings(un)
-		o := r.fail(rule, role+"."+n.Obj().Name()+"/cycle{"+strings.Join(comp, ",")+"}", c.pos(ms[comp[0]].Pos()),
-			"recursion cycle without depth accounting: "+strings.Join(dedup(un), "; ")+" - a self-containing value recurses here until the stack overflows (fatal, not the documented recoverable depth-limit panic)")
-		o.Witness = strings.Join(comp, ",")
+		// a name for the cycle that survives renaming of private functions: the exported entry
+		// points that reach it, and (witness) the dispatcher arms through which it is entered
+		all := map[string][]string{}
+		for _, e := range edges {
+			all[e.from] = append(all[e.from], e.to)
+		}
+		var entries []string
+		for _, nm := range names {
+			if !ast.IsExported(nm) {
+				continue
+			}
+			seen := map[string]bool{nm: true}
+			reach := false
+			for work := []string{nm}; len(work) > 0 && !reach; {
+				cur := work[0]
+				work = work[1:]
+				if in[cur] {
+					reach = true
+				}
+				for _, t := range all[cur] {
+					if !seen[t] {
+						seen[t] = true
+						work = append(work, t)
+					}
+				}
+			}
+			if reach {
+				entries = append(entries, nm)
+			}
+		}
+		// dispatcher: the member with the most switch clauses
+		var disp *ast.FuncDecl
+		best := 0
+		for _, m := range comp {
+			cnt := 0
+			ast.Inspect(ms[m].Body, func(x ast.Node) bool {
+				if _, ok := x.(*ast.CaseClause); ok {
+					cnt++
+				}
+				return true
+			})
+			if cnt > best {
+				best, disp = cnt, ms[m]
+			}
+		}
+		var arms []string
+		if disp != nil {
+			clauseLabel := func(cc *ast.CaseClause) string {
+				if cc.List == nil {
+					return "default"
+				}
+				var ls []string
+				for _, ce := range cc.List {
+					ls = append(ls, armLabel(ce))
+				}
+				return strings.Join(ls, "|")
+			}
+			for _, e := range edges {
+				if e.guarded || e.from != disp.Name.Name || !in[e.to] {
+					continue
+				}
+				var path []string
+				ast.Inspect(disp.Body, func(x ast.Node) bool {
+					if cc, ok := x.(*ast.CaseClause); ok && cc.Pos() <= e.pos && e.pos <= cc.End() {
+						path = append(path, clauseLabel(cc))
+					}
+					return true
+				})
+				if len(path) > 0 {
+					arms = append(arms, path[0]) // the outermost clause: nested ladders may be restructured freely
+				}
+			}
+		}
+		sort.Strings(arms)
+		arms = dedup(arms)
+		construct := role + "." + n.Obj().Name() + "/recursion-from{" + strings.Join(entries, ",") + "}"
+		if len(entries) == 0 {
+			construct = role + "." + n.Obj().Name() + "/cycle{" + strings.Join(comp, ",") + "}"
+		}
+		o := r.fail(rule, construct, c.pos(ms[comp[0]].Pos()),
+			"recursion cycle {"+strings.Join(comp, ",")+"} without depth accounting, entered through the dispatcher arms ["+strings.Join(arms, ", ")+"]: "+strings.Join(dedup(un), "; ")+" - a self-containing value recurses here until the stack overflows (fatal, not the documented recoverable depth-limit panic)")
+		o.Witness = "arms: " + strings.Join(arms, ",")
 	}
 }
 
@@ -583,4 +743,38 @@ func depthDeltas(g *FG, info *types.Info, counter *types.Var) map[ast.Node]int {
 		}
 	}
 	return out
+}
+
+// armLabel names a case clause without using local variable names: constants and types by
+// their text, boolean conditions by the functions they call and the string literals they use.
+func armLabel(e ast.Expr) string {
+	e = ast.Unparen(e)
+	switch x := e.(type) {
+	case *ast.Ident:
+		return x.Name
+	case *ast.SelectorExpr:
+		if _, ok := x.X.(*ast.Ident); ok {
+			return exprStr(x)
+		}
+	case *ast.StarExpr, *ast.ArrayType, *ast.MapType, *ast.InterfaceType:
+		return exprStr(e)
+	}
+	var parts []string
+	ast.Inspect(e, func(y ast.Node) bool {
+		switch z := y.(type) {
+		case *ast.CallExpr:
+			if se, ok := ast.Unparen(z.Fun).(*ast.SelectorExpr); ok {
+				parts = append(parts, se.Sel.Name)
+			} else if id, ok := ast.Unparen(z.Fun).(*ast.Ident); ok {
+				parts = append(parts, id.Name)
+			}
+		case *ast.BasicLit:
+			if z.Kind == token.STRING {
+				parts = append(parts, z.Value)
+			}
+		}
+		return true
+	})
+	sort.Strings(parts)
+	return "cond:" + strings.Join(dedup(parts), "+")
 }
